@@ -362,13 +362,34 @@ func zvC08Match(exp []zvC08Exp, obs []*zvoView) (missing []zvC08Exp, extra []*zv
 func zvC08Classify(cfg zvC08Cfg, pfx int, descs []zvC08Desc, missing []zvC08Exp, extra []*zvoView, blockedNew bool) []map[string]string {
 	var out []map[string]string
 	paired := make([]bool, len(missing))
+	srcOf := func(d zvC08Desc) string {
+		if d.Static {
+			return "0.0.0.0"
+		}
+		return zvoIP(zvC08IP(d.Src))
+	}
 	for _, v := range extra {
 		sig := map[string]string(nil)
+		// the right path with wrong attributes?
+		for i, e := range missing {
+			for _, d := range descs {
+				if d.Name == e.From && !paired[i] && v.Source == srcOf(d) {
+					paired[i] = true
+					sig = vh.Sig("kind", "attributes", "attr", zvC08FirstDiff(e, v))
+				}
+			}
+			if sig != nil {
+				break
+			}
+		}
+		// a correct rendering of a path that is not (any more) selected?
 		for _, d := range descs {
+			if sig != nil || v.Source != srcOf(d) {
+				continue
+			}
 			free := cfg
-			free.Policy = "accept"
-			if cfg.Policy == "set_med" {
-				free.Policy = "set_med"
+			if free.Policy == "reject_p1" {
+				free.Policy = "accept"
 			}
 			if e, exported, _ := zvC08Export(free, pfx, d); exported && e.matches(v) {
 				rw := "unchanged"
@@ -383,22 +404,6 @@ func zvC08Classify(cfg zvC08Cfg, pfx int, descs []zvC08Desc, missing []zvC08Exp,
 					rw = "rr_client_ebgp_learned"
 				}
 				sig = vh.Sig("kind", "stale", "stale_rewrite", rw)
-				break
-			}
-		}
-		if sig == nil {
-			for i, e := range missing {
-				src := "0.0.0.0"
-				for _, d := range descs {
-					if d.Name == e.From && !d.Static {
-						src = zvoIP(zvC08IP(d.Src))
-					}
-				}
-				if !paired[i] && v.Source == src {
-					paired[i] = true
-					sig = vh.Sig("kind", "attributes", "attr", zvC08FirstDiff(e, v))
-					break
-				}
 			}
 		}
 		if sig == nil {
